@@ -6,7 +6,7 @@
    the abstract cards and the periodic table. *)
 From Coq Require Import List NArith ZArith Bool String Ascii Reals PrimFloat.
 From T4V Require Import Base.Str Base.Scalar C10.Model C10.ProofsStr C10.Spec C10.ProofsHead
-  C10.ProofsCard C10.ProofsNum C10.ProofsDeck C10.ProofsPipe C10.LinkC09 C10.LinkC14 C10.LinkC09b C10.LinkC09c.
+  C10.ProofsCard C10.ProofsNum C10.ProofsDeck C10.ProofsPipe C10.LinkC09 C10.LinkC14 C10.LinkC09b C10.LinkC09c C10.ProofsTotal.
 From T4V Require C09.Model C09.Spec C09.ProofsNorm C14.Model C14.ProofsContent C14.ProofsCards.
 Import ListNotations.
 Open Scope string_scope.
@@ -718,4 +718,42 @@ Proof.
     exists 0%nat, T4V.C09.Spec.Me. split; reflexivity.
   - split; [reflexivity|]. split; [reflexivity|]. split; [|reflexivity].
     exists 0%nat, T4V.C09.Spec.Md. split; reflexivity.
+Qed.
+
+(* ------------------------------------------------------------------------ *)
+(* round 4: decks that are never rejected                                    *)
+(* ------------------------------------------------------------------------ *)
+
+(* a well-formed deck (one sign per card) whose live cells give their material
+   a density float() reads — and, for an atom density on a card with atom
+   fractions, fractions float() reads that do not sum to zero — is converted:
+   no exception on the whole path from the data cards to the lines *)
+Theorem C10_conversion_succeeds :
+  forall (T : Type) (S : Scalar T) norm (fval : string -> option T) rend
+         (cards : list dcard) (cells : list (cell (T:=T))),
+  wf_deck cards ->
+  (forall m c, In m (mcards cards) -> In c cells -> uses S (m_num m) c = true ->
+     exists d fd, c_dens c = Some d /\ fval d = Some fd /\
+       (sltb S fd (s0 S) = false -> card_flag m = Some true ->
+        exists fs, fractions_of fval (nuclides (m_items m)) fs /\ seqb S (ssum S fs) (s0 S) = false)) ->
+  exists lines, composition_lines S norm fval rend (map render_dcard cards) cells = Ok lines.
+Proof. intros T S norm fval rend. exact (conversion_succeeds S norm fval rend). Qed.
+Print Assumptions C10_conversion_succeeds.
+
+(* non-vacuity: the deck of C10_deck_example satisfies the hypotheses *)
+Example C10_conversion_succeeds_example :
+  forall m c, In m (mcards ex_cards) -> In c ex_cells -> uses FS (m_num m) c = true ->
+     exists d fd, c_dens c = Some d /\ ex_fval d = Some fd /\
+       (sltb FS fd (s0 FS) = false -> card_flag m = Some true ->
+        exists fs, fractions_of ex_fval (nuclides (m_items m)) fs /\ seqb FS (ssum FS fs) (s0 FS) = false).
+Proof.
+  intros m c Hm Hc Hu. cbn [mcards ex_cards] in Hm.
+  destruct Hm as [<-|[<-|[]]];
+    repeat (destruct Hc as [<-|Hc]; [try (vm_compute in Hu; discriminate Hu)|]); try destruct Hc;
+    (eexists; eexists; split; [reflexivity|split; [vm_compute; reflexivity|]]);
+    intros H1 H2; try (vm_compute in H1; discriminate H1); try (vm_compute in H2; discriminate H2).
+  eexists. split.
+  - cbn [nuclides m_items ex_fuel ex_items]. unfold fractions_of.
+    repeat (eapply Forall2_cons; [vm_compute; reflexivity|]). apply Forall2_nil.
+  - vm_compute. reflexivity.
 Qed.
